@@ -630,3 +630,64 @@ pub fn elem_bytes(f: FieldId, v: &num_bigint::BigUint) -> Vec<u8> {
 }
 
 pub fn _unused<F: FieldElement>() {}
+
+// ------------------------------------------------------------------------------------------------
+// The fixed (type, parameter) table of the exhaustive enumerations and of the fuzz targets
+
+fn fixed_cfgs() -> Vec<VdafCfg> {
+    let mk = |inst: Inst, n_agg: u8, n_proofs: u8| VdafCfg { alg_id: inst.default_alg_id(), inst, xof: XofKind::Turbo, n_agg, n_proofs };
+    vec![
+        mk(Inst::Count { f: FieldKind::F64 }, 2, 1),
+        mk(Inst::Sum { f: FieldKind::F64, max: U(255) }, 3, 1),
+        mk(Inst::Histogram { f: FieldKind::F128, len: 5, chunk: 2, mt: false }, 2, 1),
+        mk(Inst::SumVec { f: FieldKind::F64, max: U(3), len: 3, chunk: 4, mt: false }, 2, 2),
+        mk(Inst::Multihot { f: FieldKind::F128, len: 4, max_weight: 2, chunk: 3, mt: false }, 4, 1),
+    ]
+}
+
+/// The fixed (type, parameter) list for the exhaustive short-string enumeration.
+pub fn fixed_specs() -> Vec<Spec> {
+    let mut v = vec![Spec::U8, Spec::U16, Spec::U32, Spec::U64, Spec::Unit, Spec::Seed16, Spec::Seed32, Spec::F32, Spec::F64, Spec::F128, Spec::F255, Spec::PopValue64, Spec::PopValue255, Spec::Prio2VerifierShare, Spec::PopAggParam, Spec::PingPongMessage];
+    for c in fixed_cfgs() {
+        v.push(Spec::P3Public(c.clone()));
+        for agg in [0usize, 1] {
+            v.push(Spec::P3Input(c.clone(), agg));
+            v.push(Spec::P3VerifierShare(c.clone(), agg));
+            v.push(Spec::P3VerifierMessage(c.clone(), agg));
+            v.push(Spec::P3State(c.clone(), agg));
+            v.push(Spec::P3Continuation(c.clone(), agg));
+        }
+        v.push(Spec::P3Output(c.clone()));
+        v.push(Spec::P3Agg(c));
+    }
+    for kind in [IdpfKind::Poplar, IdpfKind::F64F255, IdpfKind::F128F128, IdpfKind::F32F64] {
+        for bits in [1usize, 2, 4, 5] {
+            v.push(Spec::IdpfPublic { kind, bits });
+        }
+    }
+    for bits in [1usize, 2, 9] {
+        for agg in [0usize, 1] {
+            v.push(Spec::PopInput { bits, aes: false, agg });
+            v.push(Spec::PopInput { bits, aes: true, agg });
+            v.push(Spec::PopState { bits, agg });
+            v.push(Spec::PopContinuation { bits, agg });
+        }
+    }
+    for k in [PopStateKind::InnerR1, PopStateKind::InnerR2, PopStateKind::LeafR1, PopStateKind::LeafR2] {
+        v.push(Spec::PopMessage(k));
+        v.push(Spec::PopFieldVecByState(k));
+    }
+    v.push(Spec::PopFieldVecByParam { bits: 4, level: 1, n: 3 });
+    v.push(Spec::PopFieldVecByParam { bits: 4, level: 3, n: 2 });
+    for len in [1usize, 3, 7] {
+        for agg in [0usize, 1] {
+            v.push(Spec::Prio2Input { len, agg });
+            v.push(Spec::Prio2State { len, agg });
+            v.push(Spec::Prio2Continuation { len, agg });
+        }
+        v.push(Spec::Prio2Output { len });
+        v.push(Spec::Prio2Agg { len });
+    }
+    v
+}
+
